@@ -422,7 +422,9 @@ def rule_index_capture(run):
     assigns = {a.targets[0].id: a.value for a in block if isinstance(a, ast.Assign) and isinstance(a.targets[0], ast.Name)}
     obj_n, index_n, temp_n = [dotted(a) for a in r.value.args]
     temp_v = assigns.get(temp_n)
-    ok = isinstance(temp_v, ast.Call) and src(temp_v.func).startswith("Temporary[") and not temp_v.args
+    # no arguments at all: in particular not maybe_uninitialized=True, which exempts the temporary from the
+    # definite-assignment pass (a stored reference v[idx] used in another branch / state would read a stale index)
+    ok = isinstance(temp_v, ast.Call) and src(temp_v.func).startswith("Temporary[") and not temp_v.args and not temp_v.keywords
     run.ob(ok, "TypeQualifier.__getitem_replacement", file=tq.rel, line=r.lineno, detail="fresh-temporary", expected="index_temp = Temporary[index.type]()", found=src(temp_v) if temp_v else "?")
     obj_v = assigns.get(obj_n)
     ok = isinstance(obj_v, ast.Call) and dotted(obj_v.func) == "self.__getitem__" and dotted(obj_v.args[0]) == temp_n
